@@ -12,11 +12,18 @@
   StructError of an unserialisable frame and the KeyError of a direct `self.streams[...]` index are unreachable
   in these calls.  The lookup clause is `C29_lookup_*`.
 
-  NOT covered by a theorem (the `_partial` in the name): send_headers, push_stream, initiate_connection,
-  initiate_upgrade_connection.  For those the property is decided by the correspondence check and oracle_C29 only.
+  `send_headers` (with header tuples that are two byte strings or two text strings) is covered separately
+  (`C29_send_headers`), under the invariant `Inv2` = the receive-path invariant + the stream table in order, which is
+  proved to hold in every state reachable from a fresh connection by the covered calls, `send_headers` and
+  `receive_data` (`C29_reachable_invariant`, `C29_every_history`).
+
+  NOT covered by a theorem (hence `_partial`): push_stream, initiate_connection, initiate_upgrade_connection.
+  For those the property is decided by the correspondence check and oracle_C29 only, and histories containing them are
+  outside `Reachable`.
 -/
 import H2.Proofs.ApiOk
 import H2.Proofs.ApiWF
+import H2.Proofs.SendHeaders
 import H2.Props.C17
 
 namespace H2.C29
@@ -143,28 +150,136 @@ theorem C29_covered_call_keeps_invariant (c : Conn) (op : Op) (hcov : covered op
       refine inv_of_keeps Val.int (do let c ← getS; pure c.inWM.current_window_size) c ?_ h
       intro fb0 hk; wps; exact hk
 
-/-- the states reachable from a fresh connection by covered calls and `receive_data` calls (each with whatever
-    well-typed results the HPACK decoder produces for it) -/
+/-! ### `send_headers` -/
+
+/-- the invariant of the whole connection: the receive-path invariant plus the stream table in order -/
+def Inv2 (c : Conn) : Prop := C17.Inv c ∧ SO c
+
+theorem decOk_afterEncode (hp : Hp) (hs : List Header) (h : DecOk hp) : DecOk (hp.afterEncode hs) := by
+  unfold Hp.afterEncode Hp.encode
+  cases hp.encOracle <;> exact h
+
+/-- **`send_headers`** with well-typed header tuples, in any state satisfying the invariant and for all other
+    arguments: it returns having fed the HPACK encoder exactly once, or it raises an h2 exception / ValueError and then
+    the output buffer, the history of sent frames and the compression context are what they were; either way the
+    invariant holds afterwards -/
+theorem C29_send_headers (c : Conn) (sid : Int) (headers : List Header) (es : Bool) (pw pd : Option Int) (pe : Option Bool)
+    (h : Inv2 c) (hwt : WellTyped headers) :
+    StepOk c (step c (.sendHeaders sid headers es pw pd pe)) ∧
+    Inv2 (step c (.sendHeaders sid headers es pw pd pe)).1 ∧
+    ((step c (.sendHeaders sid headers es pw pd pe)).2.res.isOk = true →
+        (step c (.sendHeaders sid headers es pw pd pe)).1.hp = c.hp.afterEncode (outList c.cfg headers)) ∧
+    ((step c (.sendHeaders sid headers es pw pd pe)).2.res.isOk = false →
+        (step c (.sendHeaders sid headers es pw pd pe)).1.hp = c.hp) := by
+  have hapi := api_sendHeaders sid headers es pw pd pe c h.1.1 h.2 hwt
+  unfold wp at hapi
+  simp only [step, runU]
+  cases hm : sendHeaders sid headers es pw pd pe c with
+  | mk r c' =>
+    rw [hm] at hapi
+    have inv_of : ∀ (hpok : DecOk c'.hp) (k : Kept c c'), Inv2 c' := by
+      intro hpok k
+      refine ⟨⟨⟨⟨by rw [k.ls]; exact h.1.1.1.ls, by rw [k.rs]; exact h.1.1.1.rs, by rw [k.mof]; exact h.1.1.1.mof, hpok⟩,
+        k.ni⟩, by rw [k.fb]; exact h.1.2⟩, k.so⟩
+    cases r with
+    | ok u =>
+      simp only at hapi
+      obtain ⟨hhp, k⟩ := hapi
+      refine ⟨⟨trivial, fun hf => by cases hf⟩, inv_of (by rw [hhp]; exact decOk_afterEncode _ _ h.1.1.1.dec) k,
+        fun _ => hhp, fun hf => by cases hf⟩
+    | error e =>
+      simp only at hapi
+      obtain ⟨hal, hos, hhp, k⟩ := hapi
+      have hos' : c'.out = c.out ∧ c'.sent = c.sent := by
+        unfold OS at hos; exact ⟨congrArg Prod.fst hos, congrArg Prod.snd hos⟩
+      refine ⟨?_, inv_of (by rw [hhp]; exact h.1.1.1.dec) k, fun hf => ?_, fun _ => hhp⟩
+      · cases e with
+        | h2 cls code sid' evs => exact ⟨trivial, fun _ => hos'⟩
+        | py kx => exact ⟨hal, fun _ => hos'⟩
+      · cases e <;> cases hf
+
+/-! ### every history -/
+
+theorem so_of_keeps {α : Type} (f : α → Val) (m : CM α) (c : Conn) (hk : KeepsSO m c) (h : SO c) :
+    SO (match m c with | (r, c') => (c', ({ res := resOf f r } : Obs))).1 := by
+  have := hk h
+  unfold wp at this
+  cases hm : m c with
+  | mk r c' =>
+    rw [hm] at this
+    cases r <;> exact this
+
+theorem C29_covered_call_keeps_streams (c : Conn) (op : Op) (hcov : covered op = true) (h : SO c) : SO (step c op).1 := by
+  cases op with
+  | initiateConnection => cases hcov
+  | initiateUpgrade _ => cases hcov
+  | sendHeaders _ _ _ _ _ _ => cases hcov
+  | pushStream _ _ _ => cases hcov
+  | recv _ => cases hcov
+  | sendData sid d es pad => exact so_of_keeps _ _ c (so_apiSendData sid d es pad c) h
+  | endStream sid => exact so_of_keeps _ _ c (so_apiEndStream sid c) h
+  | incrementWindow i sid => exact so_of_keeps _ _ c (so_apiIncrementWindow i sid c) h
+  | ping d => exact so_of_keeps _ _ c (so_apiPing d c) h
+  | resetStream sid code => exact so_of_keeps _ _ c (so_apiResetStream sid code c) h
+  | closeConnection code extra last => exact so_of_keeps _ _ c (so_apiCloseConnection code extra last c) h
+  | updateSettings items => exact so_of_keeps _ _ c (so_apiUpdateSettings items c) h
+  | altsvc f o sid => exact so_of_keeps _ _ c (so_apiAltsvc f o sid c) h
+  | prioritize sid w d e => exact so_of_keeps _ _ c (so_apiPrioritize sid w d e c) h
+  | ackData size sid => exact so_of_keeps _ _ c (so_apiAckData size sid c) h
+  | dataToSend n => exact so_of_keeps _ _ c (so_apiDataToSend n c) h
+  | clearOut => exact so_of_keeps _ _ c (so_apiClearOut c) h
+  | query q =>
+    cases q with
+    | localWindow sid => exact so_of_keeps _ _ c (so_apiLocalWindow sid c) h
+    | remoteWindow sid => exact so_of_keeps _ _ c (so_apiRemoteWindow sid c) h
+    | nextStreamId => exact so_of_keeps _ _ c (so_apiNextStreamId c) h
+    | openOut => exact so_of_keeps _ _ c (so_apiOpenOut c) h
+    | openIn => exact so_of_keeps _ _ c (so_apiOpenIn c) h
+    | inboundWindow =>
+      refine so_of_keeps Val.int (do let c ← getS; pure c.inWM.current_window_size) c ?_ h
+      intro hk; wps; exact hk
+
+/-- the states reachable from a fresh connection by covered calls, `send_headers` calls with well-typed header tuples
+    and `receive_data` calls (each with whatever well-typed results the HPACK decoder produces for it) -/
 inductive Reachable (cfg : Config) : Conn → Prop
   | init : Reachable cfg (Conn.init cfg)
   | call (c : Conn) (op : Op) : Reachable cfg c → covered op = true → Reachable cfg (step c op).1
+  | headers (c : Conn) (sid : Int) (hs : List Header) (es : Bool) (pw pd : Option Int) (pe : Option Bool) :
+      Reachable cfg c → WellTyped hs → Reachable cfg (step c (.sendHeaders sid hs es pw pd pe)).1
   | recv (c : Conn) (d : Bytes) (dec : List DecRes) : Reachable cfg c → C17.DecResOk dec →
       Reachable cfg (step (C17.feed c [] dec) (.recv d)).1
 
-theorem C29_reachable_invariant (cfg : Config) (c : Conn) (h : Reachable cfg c) : C17.Inv c := by
+theorem C29_reachable_invariant (cfg : Config) (c : Conn) (h : Reachable cfg c) : Inv2 c := by
   induction h with
-  | init => exact C17.C17_init cfg
-  | call c op _ hcov ih => exact C29_covered_call_keeps_invariant c op hcov ih
-  | recv c d dec _ hd ih => exact (C17.C17_step _ d (C17.C17_feed c [] dec ih hd)).2.2
+  | init => exact ⟨C17.C17_init cfg, so_init cfg⟩
+  | call c op _ hcov ih =>
+    exact ⟨C29_covered_call_keeps_invariant c op hcov ih.1, C29_covered_call_keeps_streams c op hcov ih.2⟩
+  | headers c sid hs es pw pd pe _ hwt ih => exact (C29_send_headers c sid hs es pw pd pe ih hwt).2.1
+  | recv c d dec _ hd ih =>
+    refine ⟨(C17.C17_step _ d (C17.C17_feed c [] dec ih.1 hd)).2.2, ?_⟩
+    have hso : SO (C17.feed c [] dec) := ih.2
+    have := receiveData_so d (C17.feed c [] dec) hso
+    simp only [step]
+    cases hr : receiveData d (C17.feed c [] dec) with
+    | mk r c' =>
+      rw [hr] at this
+      cases r <;> exact this
 
-/-- **C29 and C17 along every such history**: in every reachable state a covered call returns or raises an allowed
-    exception having written nothing, and `receive_data` never ends in a Python-level exception -/
+/-- **C29, C13 and C17 along every such history**: in every reachable state a covered call, and `send_headers` with
+    well-typed header tuples, returns or raises an allowed exception having written nothing (and, for `send_headers`,
+    having left the compression context alone); `receive_data` never ends in a Python-level exception -/
 theorem C29_every_history (cfg : Config) (c : Conn) (h : Reachable cfg c) :
     (∀ op, covered op = true → StepOk c (step c op)) ∧
+    (∀ sid hs es pw pd pe, WellTyped hs →
+        StepOk c (step c (.sendHeaders sid hs es pw pd pe)) ∧
+        ((step c (.sendHeaders sid hs es pw pd pe)).2.res.isOk = false → (step c (.sendHeaders sid hs es pw pd pe)).1.hp = c.hp)) ∧
     (∀ d dec, C17.DecResOk dec → ∀ k, (step (C17.feed c [] dec) (.recv d)).2.res ≠ .py k) := by
   have hi := C29_reachable_invariant cfg c h
-  exact ⟨fun op hcov => C29_step_partial c op hcov hi.1.1.mof,
-         fun d dec hd => (C17.C17_step _ d (C17.C17_feed c [] dec hi hd)).1⟩
+  refine ⟨fun op hcov => C29_step_partial c op hcov hi.1.1.1.mof, ?_,
+         fun d dec hd => (C17.C17_step _ d (C17.C17_feed c [] dec hi.1 hd)).1⟩
+  intro sid hs es pw pd pe hwt
+  have := C29_send_headers c sid hs es pw pd pe hi hwt
+  exact ⟨this.1, this.2.2.2⟩
 
 /-! ### the lookup clause: closed-and-forgotten → StreamClosedError, never-used higher id → NoSuchStreamError -/
 
